@@ -12,7 +12,7 @@ ALL = []
 class H:
     def __init__(self, name, mod, family, quick=(), thorough=(), timeout=600, mem_gb=10,
                  allow=(), canary=None, stubs=(), bounds=None, funcs=(), inst="",
-                 unwind_is_claim=False, extra_args=(), cost=30, note="", exempt=()):
+                 unwind_is_claim=False, extra_args=(), cost=30, note="", exempt=(), mem_need=3):
         self.name = name
         self.mod = mod
         self.family = family
@@ -30,6 +30,7 @@ class H:
         self.extra_args = list(extra_args)
         self.cost = cost                  # rough seconds, for scheduling (longest first)
         self.note = note
+        self.mem_need = mem_need if (mem_need != 3 or mem_gb <= 10) else 5  # expected peak RSS in GB (admission control)
         self.exempt = list(exempt)       # regexes: REACH covers that this instance cannot reach by construction
         ALL.append(self)
 
@@ -51,8 +52,8 @@ F1_FUNCS = ["Bump::try_alloc_layout", "Bump::try_alloc_layout_fast", "Bump::allo
             "Bump::allocation_limit_remaining", "Bump::chunk_capacity", "round_up_to"]
 for m in MS:
     H("f1_fast_m%d_1k" % m, "__verif::f1", "F1",
-      quick=["C01", "C04", "C10", "C18"] if m in (1, 8, 16) else [],
-      thorough=["C01", "C04", "C10", "C18"],
+      quick=(["C01", "C04", "C10", "C18"] if m in (1, 8, 16) else []) + (["C19"] if m == 1 else []),
+      thorough=["C01", "C04", "C10", "C18", "C19"],
       timeout=600, cost=30, stubs=STUB_CUT, inst="Bump<%d>" % m, funcs=F1_FUNCS, exempt=[r"\[err\]"],
       bounds={"chunk_usable_bytes": "16..1024 (symbolic)", "chunk_base_residue": "any multiple of 16 below 1024",
               "request_size": "any usize accepted by Layout", "request_align": "1..4096", "allocator": "A-cut (slow path excluded)",
@@ -72,6 +73,11 @@ for m in MS:
               "limit": "None", "unwind": 3})
 
 
+for m in (1, 16):
+    H("f1_fast_m%d_68k" % m, "__verif::f1", "F1", thorough=["C01", "C04", "C10", "C18"], timeout=2400, mem_gb=16, cost=200, stubs=STUB_CUT,
+      inst="Bump<%d>" % m, funcs=F1_FUNCS, exempt=[r"\[err\]"],
+      bounds={"chunk_usable_bytes": "16..69632 (symbolic)", "request_size": "any usize accepted by Layout", "request_align": "1..4096", "allocator": "A-cut", "limit": "None", "unwind": 3})
+
 # ---------------------------------------------------------------------------
 # F5 pure kernels (full 64-bit width)
 # ---------------------------------------------------------------------------
@@ -80,8 +86,8 @@ H("f5_round_up_to", "__verif::f5", "F5", quick=["C19", "C04"], cost=5, inst="-",
 H("f5_fits_under_limit", "__verif::f5", "F5", quick=["C07"], cost=3, inst="Bump<1> (function does not depend on MIN_ALIGN)",
   funcs=["Bump::chunk_fits_under_limit"], bounds={"headroom": "any Option<usize>", "candidate": "any sizes"})
 for m in (1, 8, 16):
-    H("f5_details_m%d" % m, "__verif::f5", "F5", quick=["C04", "C18", "C19"] if m in (1, 16) else [],
-      thorough=["C04", "C18", "C19", "C01"], cost=10, inst="Bump<%d>" % m,
+    H("f5_details_m%d" % m, "__verif::f5", "F5", quick=["C04", "C18", "C19", "C09"] if m in (1, 16) else [],
+      thorough=["C04", "C18", "C19", "C01", "C09"], cost=10, inst="Bump<%d>" % m,
       funcs=["Bump::new_chunk_memory_details", "round_up_to"],
       bounds={"request": "any valid Layout, align <= 4096", "size_hint": "None or any value <= 2^57 or <= request size"})
     H("f5_monotone_m%d" % m, "__verif::f5", "F5", quick=["C18"] if m == 1 else [], thorough=["C18"], cost=10,
@@ -105,6 +111,11 @@ for m in MS:
           bounds={"chunk_usable_bytes": "16..1024 (symbolic)", "operated_block": "any live block (any offset/size in the allocated region, align <= 4096), last or not",
                   "other_live_block": "any (symbolic range, disjoint)", "new_layout": "any size/align <= 4096 (>= old for grow, <= old for shrink)",
                   "allocator": "A-cut", "copies": "range-recording stubs; copy_nonoverlapping asserts non-overlap", "unwind": 3})
+for (op, m) in (("dealloc", 1), ("shrink", 1), ("grow", 1), ("shrink", 16), ("grow", 16)):
+    H("f2_%s_m%d_16k" % (op, m), "__verif::f2", "F2", thorough=["C01", "C02", "C04", "C12"], timeout=2400, mem_gb=16, cost=150,
+      stubs=STUB_CUT + STUB_COPY_RANGE, inst="&Bump<%d>" % m, funcs=F2_FUNCS,
+      exempt=[r"\[fail\]"] + ([r"\[(realloc|shrink|grow)\]"] if op == "dealloc" else [r"\[dealloc\]"]),
+      bounds={"chunk_usable_bytes": "16..16384 (symbolic)", "operated_block": "any live block", "new_layout": "any size/align <= 4096", "allocator": "A-cut", "unwind": 3})
 for nm, m in (("f2_shrink_null_m1_1k", 1), ("f2_grow_null_m1_1k", 1), ("f2_grow_null_m16_1k", 16)):
     H(nm, "__verif::f2", "F2", quick=["C12"] if nm == "f2_grow_null_m1_1k" else [], thorough=["C12", "C09"], timeout=1200, cost=90,
       stubs=STUB_NULL + STUB_COPY_RANGE, inst="&Bump<%d>" % m, funcs=F2_FUNCS + ["Bump::alloc_layout_slow"], exempt=[r"\[dealloc\]"],
@@ -149,12 +160,20 @@ for (m, k) in [(1, 0), (1, 1), (1, 2), (1, 3), (16, 0), (16, 1), (16, 2), (16, 3
     q = []
     if (m, k) in [(1, 0), (1, 2), (16, 3)]:
         q = ["C03", "C06", "C08"]
+    if (m, k) == (1, 2):
+        q = q + ["C10"]
+    if (m, k) == (1, 1):
+        q = ["C07"]
     H("f6_life_m%d_k%d" % (m, k), "__verif::f6", "F6", quick=q, thorough=["C03", "C06", "C08"], timeout=1500, cost=70 + 30 * k,
       stubs=STUB_POOL, inst="Bump<%d>" % m, funcs=F6_FUNCS, exempt=[r"whole capacity handed out again"] if k == 0 else [],
       bounds={"chunks_before": k, "chunk_usable_sizes": [448, 960, 1984][:k], "finger_positions": "any (symbolic, per chunk)",
               "limit": "any Option<usize>", "scenario": "symbolic choice of {drop, reset.drop, reset.reset.drop, reset.alloc(any size <= capacity).drop}",
               "allocator": "A-pool ledger (hand-made chunks registered as handed out)", "unwind": 5})
 
+
+for nm, m, k, ca in (("f6_life_m1_k1_a128", 1, 1, 128), ("f6_life_m8_k2_a256", 8, 2, 256)):
+    H(nm, "__verif::f6", "F6", quick=["C06"] if ca == 128 else [], thorough=["C03", "C06", "C08", "C10"], timeout=1500, cost=100, stubs=STUB_POOL, inst="Bump<%d>" % m, funcs=F6_FUNCS,
+      bounds={"chunks_before": k, "current_chunk_alignment": ca, "finger_positions": "any", "limit": "any Option<usize>", "scenario": "as the other F6 instances"})
 
 # ---------------------------------------------------------------------------
 # F3 slow-commit: one real try_alloc_layout acquiring a chunk from A-pool
@@ -189,7 +208,7 @@ for (m, k, sz, al, dp, off, uw, lim, ex) in F3_LIST:
     nm = "f3_commit_m%d_k%d_s%d_a%d_d%d" % (m, k, sz, al, dp) + ("" if lim is None else "_l%d" % lim)
     H(nm, "__verif::f3", "F3",
       quick=F3_QUICK.get((m, k, sz, al, lim), []),
-      thorough=["C01", "C03", "C04", "C07", "C08", "C09", "C10", "C18"], timeout=2400, mem_gb=16, cost=120,
+      thorough=["C01", "C03", "C04", "C07", "C08", "C09", "C10", "C18"], timeout=3000, mem_gb=20, cost=120, mem_need=9,
       stubs=STUB_POOL, inst="Bump<%d>" % m, funcs=F3_FUNCS, unwind_is_claim=True, exempt=ex,
       bounds={"chunks_before": k, "finger_of_current_chunk": "offset %d (concrete per instance)" % off,
               "request": "size %d align %d (concrete per instance; all-size arithmetic is decided by F1/F4/F5)" % (sz, al),
@@ -250,8 +269,11 @@ for m in (1, 16):
     _f7("f7_tw_same_inf_m%d" % m, ["C11"] if m == 1 else [], ["C11", "C02"], STUB_CUT, F7TW,
         {"chunk": "256-byte chunk, symbolic start/finger", "value": "Result<u64, E(u32, D)>", "allocator": "A-cut"}, "Bump<%d>, alloc_try_with" % m, cost=120)
 for nm, m in (("f7_tw_newchunk_try_m8", 8), ("f7_tw_newchunk_inf_m4", 4), ("f7_tw_newchunk_inf_m16", 16)):
-    _f7(nm, ["C11", "C03"] if m == 16 else [], ["C11", "C10", "C03"], STUB_POOL, F7TW + ["Bump::alloc_layout_slow", "Bump::new_chunk"],
+    _f7(nm, ["C11", "C03", "C08"] if m == 16 else [], ["C11", "C10", "C03", "C08"], STUB_POOL, F7TW + ["Bump::alloc_layout_slow", "Bump::new_chunk"],
         {"pre_state": "one 448-byte chunk with 16 bytes free (concrete)", "value": "Result<[u8;200], E>", "allocator": "A-pool, nothing refused"}, "Bump<%d>" % m, cost=60)
+for nm, m, q in (("f7_tw_newchunk_nested_inf_m16", 16, ["C11"]), ("f7_tw_newchunk_nested_try_m4", 4, []), ("f7_try_fill_newchunk_m4", 4, []), ("f7_try_fill_newchunk_m16", 16, ["C10", "C11"])):
+    _f7(nm, q, ["C01", "C10", "C11", "C02"], STUB_POOL, F7TW + ["Bump::alloc_slice_try_fill_with", "Bump::alloc_layout_slow", "Bump::new_chunk"],
+        {"pre_state": "one 448-byte chunk, 16 (0) bytes free (concrete)", "scenario": nm, "allocator": "A-pool, nothing refused"}, "Bump<%d>" % m, cost=60)
 for nm, m in (("f7_tw_nested_keep_m1", 1), ("f7_tw_nested_keep_m16", 16), ("f7_tw_nested_release_m1", 1), ("f7_tw_nested_release_m8", 8)):
     _f7(nm, (["C11", "C10"] if "keep" in nm else ["C11"]) if m == 1 else [], ["C11", "C01", "C02", "C10"], STUB_CUT, F7TW + ["Bump::alloc", "<&Bump as Allocator>::deallocate"],
         {"chunk": "256-byte chunk, concrete finger", "initialiser": "allocates a u32 (symbolic value), keeps or releases it, then fails"}, "Bump<%d>" % m, cost=30)
@@ -289,10 +311,10 @@ for nm, m in (("chunk", 1), ("chunk", 8), ("chunk", 16), ("fresh", 1), ("fresh",
 STUB_LOOPS = ["core::ptr::copy_nonoverlapping->cno_loop", "core::ptr::copy->copy_loop"]
 V1 = [("push", 0), ("push", 2), ("push", 4), ("pop", 0), ("pop", 3), ("insert", 2), ("insert", 4), ("remove", 3), ("remove", 4), ("swap_remove", 3),
       ("truncate", 3), ("clear", 3), ("resize", 2), ("extend_copy", 3), ("extend_slices", 2), ("append", 3), ("split_off", 3),
-      ("drain", 3), ("drain", 4), ("retain", 3), ("dedup", 3), ("dedup_key", 4), ("dedup_by", 3), ("reserve", 2), ("reserve", 4), ("shrink", 2),
+      ("drain", 3), ("drain", 4), ("drain_bounds", 4), ("retain", 3), ("dedup", 3), ("dedup_key", 4), ("dedup_by", 3), ("shrink", 2),
       ("into_iter", 3), ("into_iter", 0), ("into_slice", 3)]
 V1_QUICK = {("push", 4), ("pop", 3), ("insert", 2), ("remove", 3), ("swap_remove", 3), ("truncate", 3), ("extend_copy", 3), ("split_off", 3), ("drain", 3),
-            ("dedup", 3), ("dedup_by", 3)}
+            ("dedup", 3), ("dedup_by", 3), ("drain_bounds", 4)}
 for (op, l) in V1:
     H("v1_%s_l%d" % (op, l), "__verif::v1", "V1", quick=["C13"] if (op, l) in V1_QUICK else [], thorough=["C13"] + (["C18"] if op == "reserve" else []),
       exempt=[r"end of harness \((?!%s\))" % (op if op in ("into_iter", "into_slice") else "other")],
@@ -371,13 +393,13 @@ H("s2_from_utf8", "__verif::s1", "S2", quick=[], thorough=["C14"], timeout=2400,
 # ---------------------------------------------------------------------------
 # DL drop ledger (C15) and BX boxed::Box (C17)
 # ---------------------------------------------------------------------------
-DL = ["pop", "remove", "swap_remove", "truncate", "clear", "drain", "forget_drain", "into_iter", "retain", "dedup", "split_off", "into_boxed", "into_slice", "drop_only"]
+DL = ["pop", "remove", "swap_remove", "truncate", "clear", "drain", "forget_drain", "into_iter", "retain", "dedup", "split_off", "into_boxed", "into_slice", "drop_only", "drain_nth"]
 for op in DL:
-    H("dl_" + op, "__verif::dl", "DL", quick=["C15"] if op in ("pop", "remove", "truncate", "drain", "into_iter", "retain", "into_boxed", "into_slice", "drop_only") else [],
+    H("dl_" + op, "__verif::dl", "DL", quick=["C15"] if op in ("pop", "remove", "truncate", "drain", "into_iter", "retain", "into_boxed", "into_slice", "drop_only", "drain_nth") else [],
       thorough=["C15"] + (["C17"] if op == "into_boxed" else []), timeout=1500, cost=40, stubs=STUB_CUT + STUB_LOOPS, inst="Vec<D> (D = id + counting destructor)",
       funcs=["collections::Vec::" + op, "<Vec as Drop>::drop", "Drain/IntoIter Drop", "Bump::reset"],
       bounds={"elements": 3, "operation": op, "arguments": "symbolic", "then": "container dropped, arena reset"})
-for nm, q in (("basic", 1), ("partial_ord", 1), ("downcast", 1), ("slices", 1), ("from_vec_spare", 1)):
+for nm, q in (("basic", 1), ("partial_ord", 1), ("downcast", 1), ("slices", 1), ("from_vec_spare", 1), ("slices_zst", 1)):
     H("bx_%s_h" % nm, "__verif::dl", "BX", quick=["C17"] + (["C15"] if nm in ("basic", "slices") else []) + (["C13"] if nm == "from_vec_spare" else []), thorough=["C17", "C15", "C13"], timeout=1500, cost=40,
       stubs=STUB_CUT + STUB_LOOPS, inst="Box<u32|f32|D|[D;3]|dyn Any>",
       funcs=["boxed::Box::{new_in,into_inner,into_raw,from_raw,leak,pin_in,downcast}", "<Box as Drop>::drop", "PartialEq/PartialOrd/Ord for Box", "From/TryFrom between Box<[T;N]> and Box<[T]>", "Vec::into_boxed_slice"],
@@ -394,6 +416,10 @@ for nm, m in (("layout", 1), ("layout", 8), ("value", 1), ("value", 16), ("slice
       bounds={"arenas": "two chunks of <= 1 KiB with the same symbolic geometry, finger and limit", "request": "any layout / [u64;4] / u16 slice of any length", "allocator": "A-null"})
 H("f5_amortized_new_size", "collections::raw_vec::__verif_rawvec", "F5", quick=["C18", "C19"], cost=5, inst="RawVec<u8>",
   funcs=["RawVec::amortized_new_size"], bounds={"cap": "0..isize::MAX", "used": "<= cap", "extra": "any usize"})
+
+
+H("i1_vec_append_cross_h", "__verif::i1", "I1", quick=["C20"], thorough=["C20", "C13"], timeout=1500, cost=60, stubs=STUB_CUT + STUB_LOOPS, inst="2 arenas, Vec<u8>",
+  funcs=["collections::Vec::append", "collections::Vec::push"], bounds={"scenario": "unallocated vector of arena A appends a 2-element vector of arena B, then grows"})
 
 
 def by_name(n):
